@@ -697,10 +697,40 @@ class ndarray:
     def T(self) -> "ndarray":
         return self.transpose()
 
+    def _order_idx(self, fortran: bool) -> list:
+        """buffer positions in C (row-major) or Fortran (column-major) element order"""
+        if not fortran or self.ndim < 2:
+            return list(self._idx)
+        shp = self.shape
+        strides, st = [], 1
+        for d in reversed(shp):
+            strides.append(st)
+            st *= d
+        strides.reverse()
+        out = []
+        for combo in itertools.product(*[range(d) for d in reversed(shp)]):
+            pos = _b.sum(i * s_ for i, s_ in zip(reversed(combo), strides))
+            out.append(self._idx[pos])
+        return out
+
+    def _contig(self, fortran: bool) -> bool:
+        """the elements lie in consecutive buffer positions in the given order"""
+        if self._structured:
+            return not fortran
+        idx = self._order_idx(fortran)
+        return _b.all(idx[i + 1] == idx[i] + 1 for i in range(len(idx) - 1))
+
     @property
     def flags(self):
         class F:
             writeable = self._writeable
+            c_contiguous = self._contig(False)
+            f_contiguous = self._contig(True)
+            contiguous = c_contiguous
+
+            def __getitem__(self_, k):
+                return {"C_CONTIGUOUS": self_.c_contiguous, "F_CONTIGUOUS": self_.f_contiguous, "WRITEABLE": self_.writeable,
+                        "C": self_.c_contiguous, "F": self_.f_contiguous, "W": self_.writeable}[k]
         return F()
 
     @property
@@ -921,10 +951,20 @@ class ndarray:
             yield self[i]
 
     # conversions --------------------------------------------------------------------
-    def astype(self, dt, copy: bool = True) -> "ndarray":
+    def astype(self, dt, order="K", casting="unsafe", subok=True, copy: bool = True) -> "ndarray":
         dt = dtype(dt)
         if dt._base is not None:
             raise UnsupportedInShim("astype to sub-array dtype")
+        if not copy and dt == self.dtype:
+            return self
+        if not self._structured and dt.fields_list is None and self.ndim >= 2 and order in ("K", "A", "F") and (
+                order == "F" or (self._contig(True) and not self._contig(False))):
+            # the result keeps a column-major memory layout
+            code = self.dtype.code
+            fidx = self._order_idx(True)
+            buf = [to_leaf(_leaf_as_value(self._buf[p], code), dt.code, from_python=False) for p in fidx]
+            where = {p: i for i, p in enumerate(fidx)}
+            return ndarray._mk(self.shape, dt, buf, [where[p] for p in self._idx])
         if self._structured or dt.fields_list is not None:
             if dt != self.dtype:
                 raise UnsupportedInShim("astype between structured and other dtypes")
@@ -940,10 +980,21 @@ class ndarray:
         return ndarray._mk(self.shape, dt, buf, list(range(len(buf))))
 
     def copy(self, order="C") -> "ndarray":
-        return self.astype(self.dtype)
+        return self.astype(self.dtype, order=order)
 
     def tobytes(self, order="C"):
         out: list = []
+        if order not in ("C", "F", "A", "K", None):
+            raise ValueError("order must be one of 'C', 'F', 'A', or 'K'")
+        if order == "F" or (order == "A" and self.ndim >= 2 and self._contig(True) and not self._contig(False)):
+            if self._structured:
+                raise UnsupportedInShim("Fortran-order bytes of a structured array")
+            c = self.dtype.code
+            big = self.dtype.order == ">"
+            for p in self._order_idx(True):
+                b = leaf_bytes(self._buf[p], c)
+                out.extend(reversed(b) if big else b)
+            return mkbytes(out)
         if self._structured:
             codes = self.dtype.leaf_codes()
             orders = self.dtype.leaf_orders()
@@ -1111,6 +1162,27 @@ class ndarray:
         raise ValueError(
             "The truth value of an array with more than one element is ambiguous. Use a.any() or a.all()"
         )
+
+    def _boolop(self, other, f):
+        o = asarray(other)
+        if self.dtype.code != "b1" or o.dtype.code != "b1":
+            raise UnsupportedInShim("bitwise operator on non-bool arrays")
+        return f(self, o)
+
+    def __and__(self, other):
+        return self._boolop(other, logical_and)
+
+    __rand__ = __and__
+
+    def __or__(self, other):
+        return self._boolop(other, logical_or)
+
+    __ror__ = __or__
+
+    def __xor__(self, other):
+        return self._boolop(other, logical_xor)
+
+    __rxor__ = __xor__
 
     def __invert__(self):
         if self.dtype.code != "b1":
@@ -2207,6 +2279,18 @@ def split(ary, indices_or_sections, axis=0):
 
 
 array_split = split
+
+def ascontiguousarray(a, dtype=None):
+    a = asarray(a, dtype) if dtype is not None else asarray(a)
+    if a.ndim == 0:
+        return a.reshape(1)
+    return a if a._contig(False) else a.copy(order="C")
+
+
+def asfortranarray(a, dtype=None):
+    a = asarray(a, dtype) if dtype is not None else asarray(a)
+    return a if a._contig(True) else a.copy(order="F")
+
 
 def __getattr__(name):
     if name.startswith("__"):
